@@ -49,8 +49,13 @@ func dInstallClock() {
 func dResetClock() { dTick = 0; dCur = nil; dFrozen = false }
 
 func newDNode(name string, peer uint64, off int64) *dnode {
+	return newDNodeRec(name, peer, off, audit.NoneRecorder())
+}
+
+// newDNodeRec: a node whose state reports to the given audit recorder.
+func newDNodeRec(name string, peer uint64, off int64, rec audit.Recorder) *dnode {
 	q := &memberlist.TransmitLimitedQueue{RetransmitMult: 1, NumNodes: func() int { return 1 }}
-	return &dnode{name: name, peer: peer, off: off, q: q, st: distributed.NewState(peer, q, audit.NoneRecorder())}
+	return &dnode{name: name, peer: peer, off: off, q: q, st: distributed.NewState(peer, q, rec)}
 }
 
 // do runs a local mutation on this node (its clock offset applies) and returns the broadcasts it queued.
